@@ -59,8 +59,8 @@ def evGuard (r : Repo) : Ev → Bool
 
 def apply (r : Repo) : Ev → Repo
   | .savePack p bs => if r.packs.contains (p, bs) then r else { r with packs := (p, bs) :: r.packs }
-  | .saveIndex i es => { r with idx := (i, es) :: r.idx }
-  | .saveSnap s ns => { r with snaps := (s, ns) :: r.snaps }
+  | .saveIndex i es => if r.idx.contains (i, es) then r else { r with idx := (i, es) :: r.idx }
+  | .saveSnap s ns => if r.snaps.contains (s, ns) then r else { r with snaps := (s, ns) :: r.snaps }
   | .removePack p => { r with packs := r.packs.filter fun q => q.1 != p }
   | .removeIndex i => { r with idx := r.idx.filter fun ie => ie.1 != i }
   | .removeSnap s => { r with snaps := r.snaps.filter fun sn => sn.1 != s }
